@@ -200,7 +200,7 @@ def write_violation(pid, failure, observed=None):
         rep["observed"] = {k: v.to_json() for k, v in observed[0].items()}
         rep["failures"] = observed[1]
     path = os.path.join(d, scenario.sc_hash(failure["scenario"]) + ".json")
-    json.dump(rep, open(path, "w"), indent=1, ensure_ascii=False)
+    json.dump(rep, open(path, "w"), indent=1, ensure_ascii=True)
     return path
 
 
@@ -361,7 +361,7 @@ def run_check(pid, tier, seed):
           "assumptions": list(getattr(prop, "ASSUMPTIONS", [])), "wall_s": round(wall, 2), "violations": nviol}
     evdir = os.environ.get("MSV_EVIDENCE_DIR", os.path.join(VERIF, "evidence"))
     os.makedirs(evdir, exist_ok=True)
-    json.dump(ev, open(os.path.join(evdir, pid + ".json"), "w"), indent=1, ensure_ascii=False)
+    json.dump(ev, open(os.path.join(evdir, pid + ".json"), "w"), indent=1, ensure_ascii=True)
     print("%s %s seed=%d: cases=%d evaluations=%d nontrivial=%d known_hits=%d rejected=%d wall=%.1fs exit=%d" % (
         pid, tier, seed, stats.cases, stats.evals, len(stats.nt), sum(stats.known.values()), stats.rejected, wall, exit_code))
     return exit_code
